@@ -36,11 +36,12 @@ Theorem C01_model_is_lower_bound : forall g ops,
 Proof. exact model_is_lower_bound_lemma. Qed.
 Print Assumptions C01_model_is_lower_bound.
 
-(* I.providedBy(t) / I.implementedBy(c) agree with membership in the flattened answers,
-   in every state *)
+(* I.providedBy(t) / I.implementedBy(c) agree with membership in the flattened answers, in
+   every state (interface 0, ``Interface`` itself, is implied by every specification: the model's
+   flattened lists leave it implicit when nothing is declared) *)
 Theorem C01_I_providedBy_iff : forall g st,
-  (forall t i, i_providedBy g st t i = true <-> In i (provided g st t)) /\
-  (forall c i, i_implementedBy g st c i = true <-> In i (implemented g st c)).
+  (forall t i, i_providedBy g st t i = true <-> i = 0 \/ In i (provided g st t)) /\
+  (forall c i, i_implementedBy g st c i = true <-> i = 0 \/ In i (implemented g st c)).
 Proof. exact I_providedBy_iff_lemma. Qed.
 Print Assumptions C01_I_providedBy_iff.
 
@@ -90,8 +91,8 @@ Theorem C01_stale_cache_refuted_without_eviction :
     ~ incl (lo_provided g (lrun g ops) (TInst o)) (provided g (run false g ops) (TInst o)) /\
     ~ (forall x, In x (provided g (run false g ops) (TInst o)) <->
                  In x (provided g (run false g (filter (fun p => negb (other_inst_decl o p)) ops)) (TInst o))) /\
-    (exists k, In ((0, [0]), k) (cache (run false g ops)) /\
-               k <> keepnew (cflat g (run false g ops) 0) [0]).
+    (exists k, In ((0, [1]), k) (cache (run false g ops)) /\
+               k <> keepnew (cflat g (run false g ops) 0) [1]).
 Proof. exact stale_cache_refuted_lemma. Qed.
 Print Assumptions C01_stale_cache_refuted_without_eviction.
 
@@ -111,7 +112,7 @@ Print Assumptions C01_class_instance_no_leak.
 (* noLongerProvides raises exactly when the interface is still provided afterwards *)
 Theorem C01_noLongerProvides_raises_iff : forall ev g st t x,
   raises g (step ev g st (NoLongerProvides t x)) (NoLongerProvides t x) = true <->
-  In x (provided g (step ev g st (NoLongerProvides t x)) t).
+  x = 0 \/ In x (provided g (step ev g st (NoLongerProvides t x)) t).
 Proof. exact raises_iff_lemma. Qed.
 Print Assumptions C01_noLongerProvides_raises_iff.
 
@@ -173,13 +174,15 @@ Print Assumptions C01_generated_classImplements_ordered_eq_model.
 
 Theorem C01_generated_classImplements_eq_model : forall g st x c l,
   NoDup (map fst (cache st)) ->
+  (* no Declaration object sits un-normalised in ``declared`` (the *only* forms can put one there) *)
+  (forall r, nth_error (classes st) c = Some r -> c_plain r = c_decl r) ->
   gen_classImplements g (embed_exc st x) (RClass c) (map NI l) = embed_exc (class_implements true g st c l) x.
 Proof. exact generated_classImplements_eq. Qed.
 Print Assumptions C01_generated_classImplements_eq_model.
 
-Theorem C01_generated_classImplementsOnly_eq_model : forall g st x c l,
+Theorem C01_generated_classImplementsOnly_eq_model : forall g st x c l pl,
   NoDup (map fst (cache st)) ->
-  gen_classImplementsOnly g (embed_exc st x) (RClass c) (map NI l) = embed_exc (class_only true g st c l) x.
+  gen_classImplementsOnly g (embed_exc st x) (RClass c) (map NI l) = embed_exc (class_only true g st c l pl) x.
 Proof. exact generated_classImplementsOnly_eq. Qed.
 Print Assumptions C01_generated_classImplementsOnly_eq_model.
 
@@ -239,6 +242,7 @@ Theorem C01_generated_step_eq_model : forall g st o,
   NoDup (map fst (cache st)) ->
   (decl_class o <> None \/ decl_target o <> None) ->
   (forall t, decl_target o = Some t -> target_live st t) ->
+  (forall c r, decl_class o = Some c -> nth_error (classes st) c = Some r -> c_plain r = c_decl r) ->
   gen_step g (embed st) o (nargs st (op_args o)) =
   embed_exc (step true g st o) (if raises g (step true g st o) o then Some exc_ValueError else None).
 Proof. exact generated_step_eq_spelled. Qed.
@@ -304,33 +308,33 @@ Theorem C01_generated_implementedBy_eq_model : forall g qs x c,
 Proof. exact generated_implementedBy_eq_lazy. Qed.
 Print Assumptions C01_generated_implementedBy_eq_model.
 
-(* ---- non-vacuity.  I1 extends I0; I2 alone.  C2(C0, C1): multiple inheritance; C1 has a custom
-   metaclass that implements I1. *)
-Definition ex_g : igraph := [[]; [0]; []].
+(* ---- non-vacuity.  I0 is zope.interface.Interface; I2 extends I1; I3 alone.  C2(C0, C1):
+   multiple inheritance; C1 has a custom metaclass that implements I2. *)
+Definition ex_g : igraph := [[]; [0]; [1]; [0]].
 Definition ex_ops : list op :=
-  [NewClass [] None false None; Implementer 0 [AI 1]; NewClass [] (Some [1]) false None; NewClass [0; 1] None false None; NewInstance 2;
-   DirectlyProvides (TInst 0) [AI 0; AI 2];      (* I0 is redundant (C2 inherits I1 from C0): dropped *)
-   ClassImplementsOnly 0 [AI 2];              (* the base is narrowed: the shared declaration is evicted *)
-   NewInstance 2; DirectlyProvides (TInst 1) [AI 0; AI 2];  (* same arguments: now I0 is kept, I2 dropped *)
-   NewInstance 1; Provider (TCls 1) [AI 0; AI 2]; AlsoProvides (TInst 2) [AI 1]; NoLongerProvides (TInst 2) 1].
+  [NewClass [] None false None; Implementer 0 [AI 2]; NewClass [] (Some [2]) false None; NewClass [0; 1] None false None; NewInstance 2;
+   DirectlyProvides (TInst 0) [AI 1; AI 3];      (* I1 is redundant (C2 inherits I2 from C0): dropped *)
+   ClassImplementsOnly 0 [AI 3];              (* the base is narrowed: the shared declaration is evicted *)
+   NewInstance 2; DirectlyProvides (TInst 1) [AI 1; AI 3];  (* same arguments: now I1 is kept, I3 dropped *)
+   NewInstance 1; Provider (TCls 1) [AI 1; AI 3]; AlsoProvides (TInst 2) [AI 2]; NoLongerProvides (TInst 2) 2].
 
 Example C01_witness :
   wf_igraph ex_g /\
   let st := run true ex_g ex_ops in
-  provided ex_g st (TInst 0) = [2; 2] /\     (* asked I0, I2; I0 redundant when made, lost with the base *)
-  provided ex_g st (TInst 1) = [0; 2] /\
-  lo_provided ex_g (lrun ex_g ex_ops) (TInst 0) = [2; 2] /\
-  hi_provided ex_g (lrun ex_g ex_ops) (TInst 0) = [0; 2; 2] /\
-  implemented ex_g st 2 = [2] /\ implemented ex_g st 1 = [] /\
-  (* C1's metaclass implements I1: I0 asked on the class object is redundant, I2 is kept *)
-  provided ex_g st (TCls 1) = [2; 1; 0] /\ dpb st (TCls 1) = [2] /\ provided ex_g st (TInst 2) = [] /\
+  provided ex_g st (TInst 0) = [3; 0; 3; 0] /\     (* asked I1, I3; I1 redundant when made, lost with the base *)
+  provided ex_g st (TInst 1) = [1; 0; 3; 0] /\
+  lo_provided ex_g (lrun ex_g ex_ops) (TInst 0) = [3; 0; 3; 0] /\
+  hi_provided ex_g (lrun ex_g ex_ops) (TInst 0) = [1; 0; 3; 0; 3; 0] /\
+  implemented ex_g st 2 = [3; 0] /\ implemented ex_g st 1 = [] /\
+  (* C1's metaclass implements I2: I1 asked on the class object is redundant, I3 is kept *)
+  provided ex_g st (TCls 1) = [3; 0; 2; 1; 0] /\ dpb st (TCls 1) = [3] /\ provided ex_g st (TInst 2) = [] /\
   depends st 2 0 = true /\ depends st 1 0 = false /\
   cache st <> [] /\
   filter (fun p => negb (other_inst_decl 1 p)) ex_ops <> ex_ops /\
-  raises ex_g (run true ex_g (firstn 12 ex_ops ++ [NoLongerProvides (TInst 1) 0]))
-         (NoLongerProvides (TInst 1) 0) = false /\
-  raises ex_g (run true ex_g (firstn 12 ex_ops ++ [NoLongerProvides (TInst 1) 2]))
-         (NoLongerProvides (TInst 1) 2) = true.
+  raises ex_g (run true ex_g (firstn 12 ex_ops ++ [NoLongerProvides (TInst 1) 1]))
+         (NoLongerProvides (TInst 1) 1) = false /\
+  raises ex_g (run true ex_g (firstn 12 ex_ops ++ [NoLongerProvides (TInst 1) 3]))
+         (NoLongerProvides (TInst 1) 3) = true.
 Proof.
   split; [apply wf_igraphb_ok; reflexivity|].
   vm_compute. repeat split; try reflexivity; discriminate.
@@ -338,55 +342,69 @@ Qed.
 
 (* lazy creation: C0 <- C1 <- C2, declarations on the base before the subclasses exist, no
    query until an instance of C2 is asked: implementedBy(C2) then creates C2, C1 (C0 exists since
-   it was declared on); C3 stays without specification; a built-in type. *)
+   it was declared on); C3 stays without specification. *)
 Definition lazy_qs : list zop :=
-  [ZOp (NewClass [] None false None); ZOp (Implementer 0 [AI 1]); ZOp (NewClass [0] None false None);
+  [ZOp (NewClass [] None false None); ZOp (Implementer 0 [AI 2]); ZOp (NewClass [0] None false None);
    ZOp (NewClass [1] None false None); ZOp (NewClass [] None false None); ZOp (NewInstance 2);
    ZQProvidedBy (TCls 2); ZQDirectlyProvidedBy (TInst 0)].
 
 Example C01_lazy_witness :
   snd (zrun ex_g lazy_qs) = [true; false; false; false] /\
-  snd (zq_provided ex_g (zrun ex_g lazy_qs) (TInst 0)) = [1; 0] /\
+  snd (zq_provided ex_g (zrun ex_g lazy_qs) (TInst 0)) = [2; 1; 0] /\
   snd (fst (zq_provided ex_g (zrun ex_g lazy_qs) (TInst 0))) = [true; true; true; false] /\
-  snd (zrun ex_g (lazy_qs ++ [ZOp (ClassImplementsOnly 1 [AI 2]); ZQImplementedBy 2])) = [true; true; true; false] /\
-  snd (zq_implemented ex_g (zrun ex_g (lazy_qs ++ [ZOp (ClassImplementsOnly 1 [AI 2])])) 2) = [2].
+  snd (zrun ex_g (lazy_qs ++ [ZOp (ClassImplementsOnly 1 [AI 3]); ZQImplementedBy 2])) = [true; true; true; false] /\
+  snd (zq_implemented ex_g (zrun ex_g (lazy_qs ++ [ZOp (ClassImplementsOnly 1 [AI 3])])) 2) = [3; 0].
 Proof. vm_compute. repeat split; reflexivity. Qed.
 
 (* a built-in type and an instance of it: declarations on the class work (through
    BuiltinImplementationSpecifications), object-level declarations raise and change nothing *)
 Example C01_builtin_witness :
-  let ops := [NewClass [] None true None; NewInstance 0; Implementer 0 [AI 1]] in
+  let ops := [NewClass [] None true None; NewInstance 0; Implementer 0 [AI 2]] in
   let st := run true ex_g ops in
-  provided ex_g st (TInst 0) = [1; 0] /\
-  exc_code ex_g st (step true ex_g st (DirectlyProvides (TInst 0) [AI 2])) (DirectlyProvides (TInst 0) [AI 2]) = 3 /\
-  exc_code ex_g st (step true ex_g st (AlsoProvides (TCls 0) [AI 2])) (AlsoProvides (TCls 0) [AI 2]) = 2 /\
-  step true ex_g st (DirectlyProvides (TInst 0) [AI 2]) = st /\ step true ex_g st (AlsoProvides (TCls 0) [AI 2]) = st.
+  provided ex_g st (TInst 0) = [2; 1; 0] /\
+  exc_code ex_g st (step true ex_g st (DirectlyProvides (TInst 0) [AI 3])) (DirectlyProvides (TInst 0) [AI 3]) = 3 /\
+  exc_code ex_g st (step true ex_g st (AlsoProvides (TCls 0) [AI 3])) (AlsoProvides (TCls 0) [AI 3]) = 2 /\
+  step true ex_g st (DirectlyProvides (TInst 0) [AI 3]) = st /\ step true ex_g st (AlsoProvides (TCls 0) [AI 3]) = st.
 Proof. vm_compute. repeat split; reflexivity. Qed.
 
-(* declaration OBJECTS as arguments: alsoProvides(o1, directlyProvidedBy(o0), I2) and
+(* declaration OBJECTS as arguments: alsoProvides(o1, directlyProvidedBy(o0), I1) and
    classImplements(C1, providedBy(o0)) expand, at the moment of the call, into the interfaces the
    object names; later changes of o0 do not follow *)
 Example C01_argument_objects_witness :
-  let ops := [NewClass [] None false None; Implementer 0 [AI 0]; NewInstance 0; NewInstance 0; NewClass [] None false None;
-              DirectlyProvides (TInst 0) [AI 1; AI 2];                       (* I1 kept (extends I0), I2 kept *)
-              AlsoProvides (TInst 1) [ADirectlyProvidedBy (TInst 0); AI 0];  (* I1, I2 and the redundant I0 *)
-              ClassImplements 1 [AProvidedBy (TInst 0)];                    (* I1, I2 and C0's I0 *)
+  let ops := [NewClass [] None false None; Implementer 0 [AI 1]; NewInstance 0; NewInstance 0; NewClass [] None false None;
+              DirectlyProvides (TInst 0) [AI 2; AI 3];                       (* I2 kept (extends I1), I3 kept *)
+              AlsoProvides (TInst 1) [ADirectlyProvidedBy (TInst 0); AI 1];  (* I2, I3 and the redundant I1 *)
+              ClassImplements 1 [AProvidedBy (TInst 0)];                    (* I2, I3 and C0's I1 *)
               DirectlyProvides (TInst 0) []] in
   let st := run true ex_g ops in
-  dpb st (TInst 1) = [1; 2] /\ implemented ex_g st 1 = [1; 0; 2; 0] /\ dpb st (TInst 0) = [] /\
-  nargs (run true ex_g (firstn 6 ops)) [AProvidedBy (TInst 0); ADirectlyProvidedBy (TInst 1)] = [1; 2; 0].
+  dpb st (TInst 1) = [2; 3] /\ implemented ex_g st 1 = [2; 1; 0; 3; 0; 1; 0] /\ dpb st (TInst 0) = [] /\
+  nargs (run true ex_g (firstn 6 ops)) [AProvidedBy (TInst 0); ADirectlyProvidedBy (TInst 1)] = [2; 3; 1].
 Proof. vm_compute. repeat split; reflexivity. Qed.
 
-(* old-style ``__implemented__ = (I1, I2)`` class attribute on C1(C0): the first implementedBy makes
-   it declared = [I1; I2], inherit = None — C0's I2... nothing is inherited — and the usual calls
-   then apply: classImplements adds to it, a new-style subclass inherits it *)
+(* old-style ``__implemented__ = I2`` class attribute on C1(C0): the first implementedBy makes it
+   declared = [I2], inherit = None — C0's I3 is not inherited — and the usual calls then apply:
+   classImplements adds to it, a new-style subclass inherits it *)
 Example C01_oldstyle_witness :
-  let ops := [NewClass [] None false None; Implementer 0 [AI 2];
-              NewClass [0] None false (Some [1]); NewClass [1] None false None; NewInstance 1] in
+  let ops := [NewClass [] None false None; Implementer 0 [AI 3];
+              NewClass [0] None false (Some [2]); NewClass [1] None false None; NewInstance 1] in
   let st := run true ex_g ops in
-  implemented ex_g st 1 = [1; 0] /\ implemented ex_g st 2 = [1; 0] /\ provided ex_g st (TInst 0) = [1; 0] /\
-  implemented ex_g (step true ex_g st (ClassImplements 1 [AI 2])) 1 = [1; 0; 2] /\
-  implemented ex_g (step true ex_g st (ClassImplementsOnly 1 [AI 2])) 2 = [2] /\
+  implemented ex_g st 1 = [2; 1; 0] /\ implemented ex_g st 2 = [2; 1; 0] /\ provided ex_g st (TInst 0) = [2; 1; 0] /\
+  implemented ex_g (step true ex_g st (ClassImplements 1 [AI 3])) 1 = [2; 1; 0; 3; 0] /\
+  implemented ex_g (step true ex_g st (ClassImplementsOnly 1 [AI 3])) 2 = [3; 0] /\
   snd (zrun ex_g (map ZOp ops ++ [ZQImplementedBy 1])) = [true; true; false] /\
   snd (zrun ex_g (map ZOp ops ++ [ZQProvidedBy (TInst 0)])) = [true; true; false].
+Proof. vm_compute. repeat split; reflexivity. Qed.
+
+(* ``Interface`` itself (interface 0) as a declared interface: on a class it is recorded only
+   while nothing else is declared (also by the *only* forms, which start from nothing); on an
+   instance it is always redundant; noLongerProvides(ob, Interface) withdraws every direct
+   declaration (they all extend it) and then raises, since Interface is still provided *)
+Example C01_Interface_declared_witness :
+  let ops := [NewClass [] None false None; ClassImplements 0 [AI 0]; NewClass [] None false None;
+              ClassImplements 1 [AI 3]; ClassImplements 1 [AI 0];
+              NewInstance 0; DirectlyProvides (TInst 0) [AI 0; AI 2]; ClassImplementsOnly 1 [AI 0; AI 3; AI 0]] in
+  let st := run true ex_g ops in
+  map c_decl (classes st) = [[0]; [0; 3]] /\ dpb st (TInst 0) = [2] /\
+  dpb (step true ex_g st (NoLongerProvides (TInst 0) 0)) (TInst 0) = [] /\
+  raises ex_g (step true ex_g st (NoLongerProvides (TInst 0) 0)) (NoLongerProvides (TInst 0) 0) = true.
 Proof. vm_compute. repeat split; reflexivity. Qed.
